@@ -10,7 +10,7 @@ S=$(mktemp -d /tmp/sens.XXXXXX)
 cleanup() { git -C /repo worktree remove --force "$S/repo" >/dev/null 2>&1; rm -rf "$S"; }
 [ -n "${KEEP:-}" ] || trap cleanup EXIT
 git -C /repo worktree add -f "$S/repo" HEAD -q || exit 2
-mkdir -p "$S/sim" && cp -r /verif/sim/src /verif/sim/Cargo.toml /verif/sim/Cargo.lock "$S/sim/" && mkdir -p "$S/sim/.cargo"
+mkdir -p "$S/sim" && SIM_DIR="${SIM_DIR:-/verif/sim}"; cp -r "$SIM_DIR/src" "$SIM_DIR/Cargo.toml" "$SIM_DIR/Cargo.lock" "$S/sim/" && mkdir -p "$S/sim/.cargo"
 sed -i "s|path = \"/repo\"|path = \"$S/repo\"|" "$S/sim/Cargo.toml"
 printf '[net]\noffline = true\n[build]\ntarget-dir = "%s/target"\n' "$S" > "$S/sim/.cargo/config.toml"
 case "$prop" in C10) what=srcsim;; C12) what=lifesim;; C13) what=c13;; *) echo "unknown property"; exit 2;; esac
